@@ -53,8 +53,23 @@ static bool init_live(int md)
 }
 
 /* What the parser object was used for before the to_string call under test (the answer must not depend on it):
- * 0 fresh after init, 1 a partial traversal, 2 left in an error state (NULL name lookup), 3 an earlier to_string that failed for lack of room */
+ * 0 fresh after init, 1 a partial traversal, 2 left in an error state (NULL name lookup), 3 an earlier to_string that failed for lack of room,
+ * 4 an earlier to_string on another parser that aborted inside an array */
 static int HISTORY;
+static bool poison_pending;
+/* prior use of to_string in the same process, on ANOTHER parser object: a rendering that aborts inside an array after one element
+ * (an undefined type byte). Whatever it leaves behind must not leak into the call under test. */
+static void poison_to_string(void)
+{
+    static const uint8_t bad[] = { 0x40, 0x14, 0x01, 'a', 0x42, 0x10, 0x01, 0x47, 0x43, 0x41 };
+    binson_state st[2];
+    binson_parser q;
+    char out[64];
+    size_t z = sizeof out;
+    memset(&q, 0, sizeof q);
+    q.state = st; q.max_depth = 2;
+    if (binson_parser_init_object(&q, bad, sizeof bad)) (void) binson_parser_to_string(&q, out, &z, false);
+}
 static void apply_history(void)
 {
     binson_parser *p = L.p;
@@ -64,6 +79,7 @@ static void apply_history(void)
     case 1: if (KIND == VK_OBJ) binson_parser_go_into_object(p); else binson_parser_go_into_array(p); binson_parser_next(p); break;
     case 2: binson_parser_field_with_length(p, NULL, 0); break;
     case 3: binson_parser_to_string(p, &one, &z, false); break;
+    case 4: if (poison_pending) { poison_to_string(); poison_pending = false; } break;   /* once, before the first call of the series */
     default: break;
     }
 }
@@ -91,6 +107,7 @@ static bool call_to_string(long cap, size_t stale, bool nice, size_t *size_out, 
 /* C13 on one valid document; returns false with why/sigk on the first protocol breach */
 static bool protocol_valid(const char *ref_text)
 {
+    poison_pending = true;
     size_t need = 0, sz;
     static const size_t stale[] = { 0, 7, (size_t) -1 };
     for (int i = 0; i < 3; i++) {
@@ -183,6 +200,7 @@ static bool render_check(const char *ref, size_t rl)
 {
     size_t sz = rl + 64;
     char *buf = (char *) vf_xmalloc(sz);
+    poison_to_string();
     cur_cap = (long) sz; cur_nice = 0;
     vf_count(CT_RUNS, 1);
     bool r = binson_parser_to_string(L.p, buf, &sz, false);
@@ -246,7 +264,7 @@ static bool run_valid_once(void)
     if (!init_live(needed_depth(D))) { vf_live_free(&L); return fail("init", "init rejects a valid document"); }
     bool ok = true;
     if (P_C13) {
-        for (HISTORY = 0; ok && HISTORY < 4; HISTORY++) {
+        for (HISTORY = 0; ok && HISTORY < 5; HISTORY++) {
             if (LONGDOC && (HISTORY == 1 || HISTORY == 3)) continue;
             ok = protocol_valid(NULL);
             if (!ok) { size_t l = strlen(why); snprintf(why + l, sizeof why - l, " [prior use of the parser: %d]", HISTORY); }
@@ -435,6 +453,43 @@ static void value_family(void)
     }
 }
 
+/* nesting towers: k nested arrays / objects / alternating containers with a sibling AFTER the inner container at every level
+ * (a separator decision taken from a truncated or wrapped picture of the open containers shows only on the way back up) */
+static void tower_family(void)
+{
+    static vf_doc td;
+    static const int ks[] = { 2, 7, 8, 9, 15, 16, 17, 31, 32, 33, 63, 64, 65, 66, 127, 128, 129, 200, 253, 254 };
+    char lab[96];
+    for (size_t ki = 0; ki < sizeof ks / sizeof ks[0]; ki++)
+        for (int shape = 0; shape < 4; shape++) {
+            if (!take()) continue;
+            if (vf_deadline_passed()) return;
+            int k = ks[ki];
+            vf_b_reset(&td);
+            /* shape 0: arrays in an array root; 1: arrays inside an object field; 2: objects; 3: alternating object / array */
+            if (shape == 1) { vf_b_open(&td, VK_OBJ); vf_b_name(&td, "A", 1); }
+            for (int i = 0; i < k; i++) {
+                bool obj = shape == 2 || (shape == 3 && (i & 1) == 0);
+                if (td.nopen && td.n[td.open[td.nopen - 1]].kind == VK_OBJ && !(shape == 1 && i == 0)) vf_b_name(&td, "A", 1);
+                vf_b_open(&td, obj ? VK_OBJ : VK_ARR);
+            }
+            if (td.n[td.open[td.nopen - 1]].kind == VK_OBJ) vf_b_name(&td, "A", 1);
+            vf_b_int(&td, 1);
+            for (int i = 0; i < k; i++) {
+                vf_b_close(&td);
+                if (td.nopen) {     /* a sibling after the container just closed */
+                    if (td.n[td.open[td.nopen - 1]].kind == VK_OBJ) vf_b_name(&td, "B", 1);
+                    if (i % 3 == 0) vf_b_bool(&td, true); else if (i % 3 == 1) vf_b_int(&td, 5); else { vf_b_open(&td, VK_ARR); vf_b_close(&td); }
+                }
+            }
+            if (shape == 1) vf_b_close(&td);
+            snprintf(lab, sizeof lab, "tower: shape %d, %d nested containers, a sibling after each", shape, k);
+            LONGDOC = k > 40;
+            run_valid(&td, lab);
+            LONGDOC = false;
+        }
+}
+
 static int N_DOC, N_DOC_PLAIN;
 static void worker(int w, int W, uint64_t start)
 {
@@ -447,6 +502,7 @@ static void worker(int w, int W, uint64_t start)
     if (dup2(outfd, 1) < 0) vf_die("dup2");
     long_family();
     value_family();
+    tower_family();
     /* 1. all value kinds, small documents */
     static const int cls[] = { LC_INT8, LC_INTMIN, LC_DBL, LC_DBLBIG, LC_STR, LC_STR0, LC_STRNUL, LC_BYT0, LC_BYT, LC_BYT40, LC_TRUE, LC_FALSE, LC_OBJ, LC_ARR };
     static const vf_name names[] = { { (const uint8_t *) "A", 1 }, { (const uint8_t *) "B", 1 }, { (const uint8_t *) "C\0x", 3 } };
